@@ -127,3 +127,43 @@ contract(f"{DR}:DENMReceptionManagement.feed_ldm", shapes={"self": DRM, "denm": 
                   "stored_at_the_event_position": "implies(len(ghost('ldm_adds')) == 1, stored().location.reference_position.latitude == denm['denm']['management']['eventPosition']['latitude'] and stored().location.reference_position.longitude == denm['denm']['management']['eventPosition']['longitude'])",
                   "stored_object_is_the_denm": "implies(len(ghost('ldm_adds')) == 1, stored().data_object is denm and stored().application_id == 1)"},
          **dict(S, engine_setup=setup_rx))
+
+
+# ------------------------------------------------------------------------------------------- reception
+def setup_rx2(e):
+    setup_rx(e)
+    from pyvc.shapes import Maker
+    from pyvc.values import RaiseV, TupleV
+
+    def h_rx_coder(e2, st, o, name, args, kwargs):
+        e2.used_assumptions.add("DENM coder on reception: decode returns some DENM dictionary (management container with any optional "
+                                "termination field) or raises")
+        if name == "decode":
+            s1, d = Maker(e2).make(st, RXDENM_T, e2.fresh("decoded_denm"))
+            yield s1.ghost_append("decoded", TupleV([args[0], d])), d
+            yield st, RaiseV(e2.exc("Exception", "decode error"))
+        else:
+            raise NotImplementedError(name)
+    e.opaque_handlers["denm_rx_coder"] = h_rx_coder
+    orig = e.opaque_attr
+
+    def attr(st, o, name):
+        if o.typ == "btp_indication" and name == "data":
+            return o.data["data"]
+        return orig(st, o, name)
+    e.opaque_attr = attr
+
+
+RXDENM_T = T.dict(_open=True, header=T.dict(_open=True, stationId=T.int()),
+                  denm=T.dict(_open=True, management=T.dict(referenceTime=T.int(), termination=(T.strs("isCancellation", "isNegation"), "optional"),
+                                                            eventPosition=T.dict(_open=True, latitude=T.int(-900000000, 900000001), longitude=T.int(-1800000000, 1800000001),
+                                                                                 altitude=T.dict(_open=True, altitudeValue=T.int(-100000, 800001))))))
+DRM2 = T.obj(f"{DR}:DENMReceptionManagement", logging=T.opaque("logger"), denm_coder=T.opaque("denm_rx_coder"), btp_router=T.opaque("btp_router"),
+             ldm_facility=T.opt(T.opaque("ldm_facility")))
+BTPIND = T.obj("flexstack.btp.service_access_point:BTPDataIndication", data=T.bytes(0, 2000))
+contract(f"{DR}:DENMReceptionManagement.reception_callback", shapes={"self": DRM2, "btp_indication": T.opaque("btp_indication", data=T.bytes(0, 2000))},
+         requires=["now() >= 1072915200"], may_raise=["Exception"], inline=[f"{DR}:DENMReceptionManagement.feed_ldm"],
+         ensures={"every_decoded_denm_is_stored_in_the_ldm_whatever_optional_fields_it_carries": "implies(len(ghost('decoded')) == 1 and self.ldm_facility is not None, len(ghost('ldm_adds')) == 1 and stored().data_object is ghost('decoded')[0][1])",
+                  "stored_at_its_event_position": "implies(len(ghost('ldm_adds')) == 1, stored().location.reference_position.latitude == ghost('decoded')[0][1]['denm']['management']['eventPosition']['latitude'] and stored().location.reference_position.longitude == ghost('decoded')[0][1]['denm']['management']['eventPosition']['longitude'])",
+                  "decodes_the_received_payload": "implies(len(ghost('decoded')) == 1, ghost('decoded')[0][0] == btp_indication.data)"},
+         cover=["len(ghost('ldm_adds')) == 1"], **dict(S, engine_setup=setup_rx2))
